@@ -404,6 +404,23 @@ def check(ctx):
         recv = v.expr(decs[0].func.value)
         ok = isinstance(recv, ast.Call) and isinstance(recv.func, ast.Attribute) and recv.func.attr == 'join' and segs in names_in(recv) \
             and not any(isinstance(a, (ast.GeneratorExp, ast.ListComp, ast.For)) for a in flow.ancestors(decs[0]) if a is not f)
+    if not ok and not decs:
+        # the text decoding may be a step of its own (self.decode_octets(<joined segments>)): the join is handed, once and outside any loop, to a method of the object
+        # whose result is <its parameter>.decode(<encoding>)
+        for c_ in walk_no_nested(f):
+            if isinstance(c_, ast.Call) and isinstance(c_.func, ast.Attribute) and isinstance(c_.func.value, ast.Name) and c_.func.value.id == 'self' and len(c_.args) == 1:
+                a_ = v.expr(c_.args[0])
+                r_ = st.find_method(c_.func.attr)
+                if r_ is None or not (isinstance(a_, ast.Call) and isinstance(a_.func, ast.Attribute) and a_.func.attr == 'join' and segs in names_in(a_)):
+                    continue
+                g_ = r_[1]
+                gp_ = [p_ for p_ in flow.param_names(g_) if p_ != 'self']
+                rets_ = [x_ for x_ in walk_no_nested(g_) if isinstance(x_, ast.Return) and x_.value is not None]
+                dec_ret = rets_ and all(isinstance(x_.value, ast.Call) and isinstance(x_.value.func, ast.Attribute) and x_.value.func.attr == 'decode'
+                                        and isinstance(x_.value.func.value, ast.Name) and x_.value.func.value.id in gp_ for x_ in rets_)
+                in_loop = any(isinstance(an_, (ast.GeneratorExp, ast.ListComp, ast.For)) for an_ in flow.ancestors(c_) if an_ is not f)
+                if dec_ret and not in_loop:
+                    ok = True
     ctx.instance('C04.R5', 'StringType.decode_constructed_segments decodes the text once, from the joined segments', 'ok' if ok else 'VIOLATION', node=f, file=BER)
     if not ok:
         ctx.violation('C04.R5', BER, f, Model.qual(f),
